@@ -13,8 +13,8 @@ R(t) == TraceLog[t]
 C(t) == R(t).c
 Cfg(t) == R(t).cfg
 ReqIsSpec(t)  == TreeEq(R(t).obs.req, DRequest(C(t), Cfg(t), R(t).form))
-Sent(t, k, v) == IF Cfg(t).poly THEN v ELSE Proj(C(t).args[k].t, v)
-Back(t, k, v) == IF Cfg(t).poly THEN v ELSE Proj(C(t).rets[k], v)
+Sent(t, k, v) == Vis(C(t).args[k].t, IF Cfg(t).poly THEN v ELSE Proj(C(t).args[k].t, v))
+Back(t, k, v) == Vis(C(t).rets[k], IF Cfg(t).poly THEN v ELSE Proj(C(t).rets[k], v))
 Delivered(t)  == R(t).obs.ncalls = 1 /\ NormArgs(C(t), R(t).obs.args) = NormArgs(C(t), [k \in 1..Len(C(t).vals) |-> Sent(t, k, C(t).vals[k])])
 RespIsSpec(t) == "resp" \notin DOMAIN R(t).obs \/ TreeEq(R(t).obs.resp, DResponse(C(t), Cfg(t)))
 RetNorm(c, vs) == [k \in 1..Len(c.rets) |-> Norm(c.rets[k], vs[k])]
